@@ -166,6 +166,16 @@ func (w *world) catalogue(thorough bool) []tcase {
 			add(rpc, sc.name, c, func() *result { return w.runReplenish(&sc, c) })
 		}
 	}
+	for _, sc := range w.formScenarios() {
+		sc := sc
+		if thorough {
+			sc.full = sc.fgn == "" && sc.funds.Cmp(types.Siacoins(1)) > 0
+		}
+		for _, c := range w.formCorrs(&sc) {
+			c := c
+			add(sc.kind, sc.name, c, func() *result { return w.runForm(&sc, c) })
+		}
+	}
 	for _, c := range passCorrs() {
 		c := c
 		add("latest", "contract-a", c, func() *result { return w.runLatest(c) })
@@ -233,6 +243,9 @@ func runC10(c *hx.Ctx) {
 				}
 			} else {
 				res.Count("outcome:err")
+			}
+			if _, ok := r.extra["observation2"]; ok {
+				res.Count("observe:renewal-set-with-foreign-renewal-returned")
 			}
 			if o, ok := r.extra["observation"]; ok {
 				res.Count("observe:latest-revision-with-invalid-host-signature-returned")
